@@ -7,7 +7,7 @@ import fractions
 
 from tools.py2v import T, Fn, TranslationError, find_def, split_tuple
 
-VEC, Q = "vec", "Q"
+VEC, Q, MAT = "vec", "Q", "mat"
 
 
 def qlit(x):
@@ -63,7 +63,7 @@ class FT(T):
     a, ta = self.expr(n.left)
     b, tb = self.expr(n.right)
     sym = {ast.Add: "add", ast.Sub: "sub", ast.Mult: "mul", ast.Div: "div"}.get(type(n.op))
-    if Q in (ta, tb) or VEC in (ta, tb):
+    if Q in (ta, tb) or VEC in (ta, tb) or MAT in (ta, tb):
       if sym is None:
         raise TranslationError("float operator %s" % ast.dump(n.op))
       if ta == "Z":
@@ -78,6 +78,10 @@ class FT(T):
         return ("(vs_%s %s %s)" % (sym, a, b), VEC)
       if ta == Q and tb == VEC:
         return ("(sv_%s %s %s)" % (sym, a, b), VEC)
+      if ta == MAT and tb == MAT and sym in ("add", "sub"):
+        return ("(m%s %s %s)" % (sym, a, b), MAT)
+      if ta == Q and tb == MAT and sym == "mul":
+        return ("(mscale %s %s)" % (a, b), MAT)
       raise TranslationError("binop on %s, %s" % (ta, tb))
     r, t = super().binop(n)
     return (r + "%Z", t) if t == "Z" else (r, t)
@@ -149,6 +153,22 @@ class FT(T):
       b, tb = self.expr(args[1])
       if ta == Q and tb == Q:
         return ("(Qmax %s %s)" % (a, b), Q)
+    if f == "jnp.matmul" and len(args) == 2:
+      a, ta = self.expr(args[0])
+      b, tb = self.expr(args[1])
+      if ta == MAT and tb == MAT:
+        return ("(mmul %s %s)" % (a, b), MAT)
+    if f == "jnp.max" and len(args) == 1 and isinstance(args[0], ast.Call) and \
+        ast.unparse(args[0].func) == "jnp.abs" and len(args[0].args) == 1:
+      a, ta = self.expr(args[0].args[0])
+      if ta == MAT:
+        return ("(maxabs %s)" % a, Q)
+      if ta == VEC:
+        return ("(maxabs_vec %s)" % a, Q)
+    if f == "jnp.logical_and" and len(args) == 2:
+      return ("(%s && %s)" % (self.truthy(args[0]), self.truthy(args[1])), "bool")
+    if f == "jnp.logical_or" and len(args) == 2:
+      return ("(%s || %s)" % (self.truthy(args[0]), self.truthy(args[1])), "bool")
     if f == "jnp.where" and len(args) == 3:
       c = self.truthy(args[0])
       a, ta = self.expr(args[1])
@@ -193,7 +213,9 @@ class FT(T):
     return super().block(stmts, tail)
 
   def translate(self):
-    params = " ".join("(%s : %s)" % (n, "list Q" if t == VEC else t) for n, t in self.fn.params)
+    def gt(t):
+      return t.replace("vec", "(list Q)").replace("mat", "(list (list Q))")
+    params = " ".join("(%s : %s)" % (n, gt(t)) for n, t in self.fn.params)
     body = self.block(self.node.body, None)
     return "Definition %s %s : %s :=\n%s." % (self.fn.name, params, self.fn.ret, body)
 
